@@ -32,6 +32,10 @@ def _structure_ok(h, w):
             ok = tuple(f.horizontal.shape) == (h + 1, w) and tuple(f.vertical.shape) == (h, w + 1)
             order = [id(x) for x in f.horizontal.data] + [id(x) for x in f.vertical.data]
             ok = ok and [id(x) for x in f.all_edges().data] == order and [id(x) for x in f] == order
+            # history: all_edges / iteration / dual used repeatedly must leave the arrays as they were
+            ok = ok and [id(x) for x in f.all_edges().data] == order and [id(x) for x in f] == order
+            ok = ok and [id(x) for x in f.horizontal.data] + [id(x) for x in f.vertical.data] == order
+            ok = ok and tuple(f.horizontal.shape) == (h + 1, w) and len(f.horizontal.data) == (h + 1) * w and len(f.vertical.data) == h * (w + 1)
             d = f.dual()
             ok = ok and [id(x) for x in d] == [id(x) for x in d.dual()]
             # graph inferred by the loop constraints: edge k must be the segment that geometrically joins its end points
@@ -58,7 +62,7 @@ def run(tier, only=None):
     rep = common.Report("C14", tier, "other", FILES)
     T = 40 if tier == "quick" else 200
     conds = [runner.Cond(HF, f, T, key=f[2:]) for f in
-             ["h_getitem", "h_cell_neighbors", "h_vertex_neighbors", "h_dual", "h_edge_joins_points", "h_vedge_joins_points"]]
+             ["h_getitem", "h_cell_neighbors", "h_vertex_neighbors", "h_dual", "h_edge_joins_points", "h_vedge_joins_points", "h_accessor_history"]]
     if only:
         conds = [c for c in conds if only in c.name]
     runner.run_conditions(rep, conds)
